@@ -111,35 +111,27 @@ def isoformat(dt: datetime.date | datetime.time | datetime.timedelta) -> str:
     """
     if isinstance(dt, (datetime.date, datetime.time)):
         return dt.isoformat()
-    dur: pendulum.Duration = (
-        dt
-        if isinstance(dt, pendulum.Duration)
-        else pendulum.duration(
-            days=dt.days,
-            seconds=dt.seconds,
-            microseconds=dt.microseconds,
-        )
-    )
-    datepart = "".join(
-        f"{p}{s}"
-        for p, s in ((dur.years, "Y"), (dur.months, "M"), (dur.remaining_days, "D"))
-        if p
-    )
+    # ISO 8601 durations carry one sign for the whole period and never fold days into weeks.
+    sign = ""
+    if dt.days < 0:
+        sign, dt = "-", -dt
+    days, seconds, microseconds = dt.days, dt.seconds, dt.microseconds
+    hours, seconds = divmod(seconds, 3600)
+    minutes, seconds = divmod(seconds, 60)
+    datepart = f"{days}D" if days else ""
     timepart = "".join(
         f"{p}{s}"
         for p, s in (
-            (dur.hours, "H"),
-            (dur.minutes, "M"),
-            (
-                f"{dur.remaining_seconds}.{dur.microseconds:06}"
-                if dur.microseconds
-                else dur.remaining_seconds,
-                "S",
-            ),
+            (hours, "H"),
+            (minutes, "M"),
+            (f"{seconds}.{microseconds:06}" if microseconds else seconds, "S"),
         )
         if p
     )
-    period = f"P{datepart}T{timepart}"
+    # Only emit the time designator if there is a time component (or nothing at all).
+    period = f"{sign}P{datepart}"
+    if timepart or not datepart:
+        period = f"{period}T{timepart}"
     return period
 
 
@@ -221,7 +213,17 @@ def dateparse(val: str, t: type[DateTimeT]) -> DateTimeT:
     """
     try:
         # When `exact=False`, the only two possibilities are DateTime and Duration.
-        parsed: pendulum.DateTime | pendulum.Duration = pendulum.parse(val)  # type: ignore[assignment]
+        # The parser doesn't support signed durations, so handle the sign here.
+        negative = val.startswith("-P")
+        parsed: pendulum.DateTime | pendulum.Duration = pendulum.parse(  # type: ignore[assignment]
+            val[1:] if negative else val
+        )
+        if negative:
+            parsed = -datetime.timedelta(  # type: ignore[assignment]
+                days=parsed.days,
+                seconds=parsed.seconds,  # type: ignore[union-attr]
+                microseconds=parsed.microseconds,  # type: ignore[union-attr]
+            )
         normalized = _nomalize_dt(val=val, parsed=parsed, td=t)
         return normalized
     except ValueError:
